@@ -94,10 +94,11 @@ pub proof fn lemma_triu_cum_mono(A: CscMatrix<F>, a: int, b: int)
 pub open spec fn to_triu_post(A: CscMatrix<F>, R: CscMatrix<F>) -> bool {
     &&& R.m == A.m && R.n == A.n && colptr_wf(R)
     &&& forall|c: int| 0 <= c <= A.n ==> #[trigger] R.colptr@[c] == triu_cum(A, c)
-    &&& forall|c: int, i: int| 0 <= c < A.n && 0 <= i < triu_cnt(A, c) ==> {
-            &&& #[trigger] R.rowval@[triu_cum(A, c) + i] == A.rowval@[A.colptr@[c] + i]
-            &&& R.nzval@[triu_cum(A, c) + i] == A.nzval@[A.colptr@[c] + i] }
+    &&& forall|c: int, i: int| #[trigger] tslot(c, i) && 0 <= c < A.n && 0 <= i < triu_cnt(A, c) ==> R.rowval@[triu_cum(A, c) + i] == A.rowval@[A.colptr@[c] + i]
+    &&& forall|c: int, i: int| #[trigger] tslot(c, i) && 0 <= c < A.n && 0 <= i < triu_cnt(A, c) ==> R.nzval@[triu_cum(A, c) + i] == A.nzval@[A.colptr@[c] + i]
 }
+// names the i-th kept entry of column c (a trigger for the copy clauses: an index term with arithmetic in it is not one Z3 matches reliably)
+pub open spec fn tslot(c: int, i: int) -> bool { true }
 pub proof fn lemma_col_prefix(A: CscMatrix<F>, c: int)
     requires
         colptr_wf(A), 0 <= c < A.n,
@@ -128,6 +129,7 @@ pub proof fn lemma_to_triu_dense(A: CscMatrix<F>, R: CscMatrix<F>)
         assert(R.colptr@[c] == triu_cum(A, c)); assert(R.colptr@[c + 1] == triu_cum(A, c + 1));
         assert(triu_cum(A, c + 1) == triu_cum(A, c) + triu_cnt(A, c));
         lemma_triu_cum_le(A, c);
+        assert(tslot(c, i));
         assert(R.rowval@[triu_cum(A, c) + i] == A.rowval@[A.colptr@[c] + i]);
         assert(col_rows(A, c)[i] == A.rowval@[A.colptr@[c] + i]);
     }
@@ -140,6 +142,7 @@ pub proof fn lemma_to_triu_dense(A: CscMatrix<F>, R: CscMatrix<F>)
         assert(i < triu_cnt(A, c));
         assert(R.colptr@[c] == triu_cum(A, c)); assert(R.colptr@[c + 1] == triu_cum(A, c + 1));
         assert(triu_cum(A, c + 1) == triu_cum(A, c) + triu_cnt(A, c));
+        assert(tslot(c, i));
         assert(R.rowval@[triu_cum(A, c) + i] == A.rowval@[A.colptr@[c] + i]);
     }
 }
@@ -452,9 +455,8 @@ it2
             colptr@.len() == n + 1, rowval@.len() == nnz, nzval@.len() == nnz, nnz == triu_cum(*self, n as int),
             forall|c: int| 0 <= c <= it2.index@ ==> #[trigger] colptr@[c] == triu_cum(*self, c),
             forall|c: int| it2.index@ <= c < n ==> #[trigger] colptr@[c + 1] == triu_cnt(*self, c),
-            forall|c: int, i: int| 0 <= c < it2.index@ && 0 <= i < triu_cnt(*self, c) ==> {
-                &&& #[trigger] rowval@[triu_cum(*self, c) + i] == self.rowval@[self.colptr@[c] + i]
-                &&& nzval@[triu_cum(*self, c) + i] == self.nzval@[self.colptr@[c] + i] },
+            forall|c: int, i: int| #[trigger] tslot(c, i) && 0 <= c < it2.index@ && 0 <= i < triu_cnt(*self, c) ==> rowval@[triu_cum(*self, c) + i] == self.rowval@[self.colptr@[c] + i],
+            forall|c: int, i: int| #[trigger] tslot(c, i) && 0 <= c < it2.index@ && 0 <= i < triu_cnt(*self, c) ==> nzval@[triu_cum(*self, c) + i] == self.nzval@[self.colptr@[c] + i],
 //@body_start 3
             let ghost gc = col as int;
             let ghost rv1 = rowval@;
@@ -466,9 +468,9 @@ it2
             }
 //@body_end 3
             proof {
-                assert forall|c: int, i: int| 0 <= c < gc + 1 && 0 <= i < triu_cnt(*self, c) implies ({
-                    &&& #[trigger] rowval@[triu_cum(*self, c) + i] == self.rowval@[self.colptr@[c] + i]
-                    &&& nzval@[triu_cum(*self, c) + i] == self.nzval@[self.colptr@[c] + i] }) by {
+                assert forall|c: int, i: int| #[trigger] tslot(c, i) && 0 <= c < gc + 1 && 0 <= i < triu_cnt(*self, c) implies
+                    rowval@[triu_cum(*self, c) + i] == self.rowval@[self.colptr@[c] + i]
+                    && nzval@[triu_cum(*self, c) + i] == self.nzval@[self.colptr@[c] + i] by {
                     if c < gc {
                         lemma_triu_cum_mono(*self, c + 1, gc);
                         lemma_triu_cum_le(*self, c);
